@@ -1124,6 +1124,22 @@ func cmdCheck(args []string) int {
 		}(i, o)
 	}
 	wg.Wait()
+	// an obligation that no solver decided while the others were racing beside it gets one more attempt on an otherwise
+	// idle machine with a long limit before it is reported as undischarged (a loaded machine must not become an alarm)
+	for i, r := range results {
+		undecided := r.Raw == "unknown" || r.Raw == "timeout" || strings.Contains(r.Solver, "candidate model")
+		if r.Status == "failed" && undecided && obls[i].Kind != "bind" {
+			lt := timeout * 3
+			if lt < 30 {
+				lt = 30
+			}
+			r2 := g.solveObligation(obls[i], workdir, lt, false)
+			if r2.Status == "discharged" {
+				r2.Solver += "(sequential retry)"
+				results[i] = r2
+			}
+		}
+	}
 	// report
 	discharged := 0
 	solverWins := map[string]int{}
